@@ -7,7 +7,10 @@ FRAGS = ['\\41 ', '\\41b', '\\g', 'a|b', '[a=b]', '[a="x"]', ':is(', ':not(', ')
          ':-soup-contains(', '"a\\"b"', "'x'", '--', '-a', '*|*', '|a', '::', '@pa', '&', ':--c', ':has(', '> ', ':root', ':dir(ltr)',
          ':nth-last-of-type(', 'even', '-n+3', ':contains(', '\\110000', '\\0', '\\', '/*', '*/', '[a', '="', ' i]', ':hover', ':host(',
          ':current(', ':where(', ':matches(', '\\\n', ':--d', ':lang("', ':nth-child(9999999999999999999999n)', 'html|', ':checked',
-         ':in-range', '[type=', ':only-child', ' , ', ':is()', ':not()', ':has()']
+         ':in-range', '[type=', ':only-child', ' , ', ':is()', ':not()', ':has()',
+         # characters that mean something to str.format / % / re / repr when a name is interpolated into a message
+         ':x\\{y\\}', ':hover\\{', ':--t\\{n\\}', ':nth\\7b 1\\7d ', ':a\\%s', ':x\\{0\\}', '\\{\\}', '\\%\\(a\\)s', ':\\\\N', '::x\\{', '@x\\{',
+         ':is(a\\{)', '[a\\{=b]', '#\\{0\\}', '.\\%d']
 
 
 def raw(rnd, maxlen=12):
